@@ -302,5 +302,11 @@ example :
     s1.watcher = some (.native, [⟨"b", true⟩, ⟨"c", false⟩]) ∧ s1.errs = 1 ∧
     s2.watcher = some (.native, [⟨"b", true⟩, ⟨"c", false⟩, ⟨"a", true⟩]) ∧ s2.errs = 1 := by decide
 
+/-- **an empty set releases the watcher** — unconditionally: whatever failed before, whatever the worker believes -/
+theorem empty_set_releases (s : St) (h : s.cfg.paths = []) : (iteration s).watcher = none ∧ (iteration s).localSet = [] := by
+  unfold iteration release
+  simp only [h, List.isEmpty_nil, if_true]
+  exact ⟨trivial, trivial⟩
+
 #print axioms iteration_faults
 end Fw
